@@ -205,6 +205,24 @@ CHECKS.update({
              'to_slug is bounded only (unicodedata + regex substitutions are '
              'outside the deductive reach); pyvc, z3.',
         ref='DESIGN.md section 4 C16'),
+    'C18': dict(
+        text='op_methods: key set == the 17 documented operators; every '
+             'numeric / string / <in> / <or> entry proved to be the '
+             'documented relation on symbolic operands; _all_in and _range_in '
+             '(all four bracket combinations, strictness at each end, '
+             'TypeError for wrong arity / bad brackets / inverted bounds); '
+             'match(): single token -> equality, otherwise dispatch with the '
+             'value first and the operand tokens in order, ParseException -> '
+             'equality with the whole spec; make_grammar() executed against a '
+             'recording stand-in for pyparsing and its structure checked: no '
+             'operator literal is shadowed by an earlier proper prefix, the '
+             'five alternatives, the atom rule, the <or> token dropping. '
+             'Bounded stand-in: the real parser on all operators x operand '
+             'families x whitespace.',
+        note='A-FLOAT (float() uninterpreted real), A-LITERAL_EVAL, '
+             'A-PYPARSING (MatchFirst order semantics; tokenisation itself is '
+             'checked only by the bounded family); pyvc, z3.',
+        ref='DESIGN.md section 4 C18'),
     'C10': dict(
         text='(1) Regular-language lemmas (z3 RegLan, translated on every run '
              'from the real pattern strings in UNIT_SYSTEM_INFO via CPython\'s '
